@@ -49,6 +49,14 @@ seeded changes of round twelve kept such state; all of them were reported throug
 obligation names the broken modelling assumption directly.) -/
 theorem no_shared_state : Agrees Extracted.sharedState [] := by decide
 
+/-- Assumption A-pure, obligation of every property: the model takes each `&self` method — `Response::write_all`, the
+getters, `HttpRoutes::handle_http_request`, `pending_write`, … — to be a function of the value it is called on, and each
+`&mut self` method to change only what the model's step changes. That is only faithful if no type of the crate hides
+state behind a shared reference: the translator lists every mention of `Cell`, `RefCell`, `UnsafeCell`, `OnceCell`,
+`OnceLock`, `Lazy*`, `Mutex`, `RwLock` or an `Atomic*` type in the non-test source; the list must be empty. (Round
+eighteen: a `Cell<usize>` write offset in `Response`, a `OnceLock` bound in `HttpRoutes`, an `AtomicUsize` budget.) -/
+theorem no_interior_mutability : Agrees Extracted.interiorMutability [] := by decide
+
 /-! ### C04 — window and default payload limit -/
 theorem buffer_size : Agrees Extracted.BUFFER_SIZE P0.B := by decide
 theorem max_payload_size : Agrees Extracted.MAX_PAYLOAD_SIZE MAX_PAYLOAD_SIZE := by decide
